@@ -35,6 +35,7 @@ memcpy memmove memset strcmp strncmp strlen strcpy strncpy strcat memcmp
 snprintf vsnprintf sprintf vsprintf fgets
 __asan_memcpy __asan_memmove __asan_memset qsort lfind bsearch
 strtok rand srand localeconv gmtime localtime ctime asctime getenv setenv putenv
+time clock gettimeofday clock_gettime timespec_get getpid getppid pthread_self arc4random arc4random_buf arc4random_uniform getrandom getentropy
 hcreate hdestroy hsearch drand48 lrand48 mrand48 srand48 random srandom lgamma lgammaf gamma ecvt fcvt
 pthread_mutex_lock pthread_mutex_unlock pthread_mutex_trylock pthread_mutex_init pthread_mutex_destroy
 pthread_once call_once pthread_key_create pthread_key_delete pthread_setspecific pthread_getspecific tss_create tss_delete tss_set tss_get mtx_init mtx_destroy mtx_lock mtx_trylock mtx_unlock
@@ -58,7 +59,7 @@ fprintf fwrite fputs puts printf vfprintf putchar fputc
 __stack_chk_fail _GLOBAL_OFFSET_TABLE_""".split())
 SAN_PREFIXES = ("__asan_", "__ubsan_", "__sanitizer_", "__start___sancov", "__stop___sancov", "__sancov")
 
-MT_UNSAFE = set("strtok rand srand localeconv gmtime localtime ctime asctime setenv putenv getenv hcreate hdestroy hsearch drand48 lrand48 mrand48 srand48 random srandom lgamma lgammaf gamma ecvt fcvt".split())
+MT_UNSAFE = set("strtok rand srand localeconv gmtime localtime ctime asctime setenv putenv getenv hcreate hdestroy hsearch drand48 lrand48 mrand48 srand48 random srandom lgamma lgammaf gamma ecvt fcvt arc4random arc4random_buf arc4random_uniform".split())
 
 
 def sh(cmd, **kw):
